@@ -9,6 +9,7 @@
 -/
 import NemoVerif.Lemmas.Bind
 import NemoVerif.Lemmas.BindHeap
+import NemoVerif.Lemmas.BindSurplus
 namespace NemoVerif.C08
 open NemoVerif NemoVerif.Bind
 
@@ -424,4 +425,44 @@ example :
   · simp [exec, s0, s2, f1, pf, St.setCtx, St.ctxOf, findInst, replaceInst, returnCtx, St.evalIn, eval, Bind.set, returnKey]
   · simp [s0, s2, findInst]
   · simpa [s0, s2, St.ctxOf, findInst] using pf_handshake
+/-! ## Surplus positional arguments (observed behaviour, outside the statement): exact characterisation -/
+
+/-- **Surplus positionals, exactly** (every signature with distinct names, every number `k` of contiguous
+    positionals): the code as it is rejects the call iff `k > 2·n` — `_start_flow` enumerates
+    `FlowState.arguments`, which holds the `n` parameter keys AND the `min k n` keys `$i` the second loop of
+    `create_flow_instance` added, so its "one more than the last index" check only fires beyond `2n`.  For
+    `n < k ≤ 2n` the call is accepted (the caller then waits forever: FlowStarted lacks `$n…`). -/
+theorem surplus_positionals_exact (fid : String) (params rets : List Param) (ev : Ctx) (k : Nat)
+    (h : PositionalCall params ev k) :
+    ∃ f0, createFlowInstance fid params rets ev = .ok f0 ∧
+      (2 * params.length < k → startFlow false ev f0 = .error .tooMany) ∧
+      (k ≤ 2 * params.length → ∃ f, startFlow false ev f0 = .ok f) :=
+  surplus_core fid params rets ev k h
+
+/-- non-vacuity: `flow f $a` called with two positionals -/
+example : PositionalCall [⟨"a", none⟩]
+    [(.pos 0, .int 0), (.pos 1, .int 1), (.name "source_flow_instance_uid", .str "m"), (.name "source_head_uid", .str "h")] 2 := by
+  refine ⟨by decide, by simp [lookup], by simp [lookup], by simp [lookup], ?_, ?_⟩
+  · intro i hi
+    have : i = 0 ∨ i = 1 := by omega
+    rcases this with e | e <;> subst e <;> simp [lookup]
+  · intro i hi
+    have h0 : (Key.pos 0 = Key.pos i) = False := by
+      simp only [Key.pos.injEq, eq_iff_iff, iff_false]; omega
+    have h1 : (Key.pos 1 = Key.pos i) = False := by
+      simp only [Key.pos.injEq, eq_iff_iff, iff_false]; omega
+    simp [lookup, h0, h1]
+
+/-- … and where the accepted surplus value goes: `flow f $a` called as `f(0, 1)` — the second positional
+    lands in the callee's context under the key `$0` (the loop of `_start_flow` walks on over the `$i` keys of
+    `arguments`). (finite fact, by evaluation) -/
+theorem surplus_lands_under_positional_key_witness :
+    ∃ f0 f, createFlowInstance "f" [⟨"a", none⟩] []
+        [(.pos 0, .int 0), (.pos 1, .int 1), (.name "source_flow_instance_uid", .str "m"), (.name "source_head_uid", .str "h")] = .ok f0 ∧
+      startFlow false
+        [(.pos 0, .int 0), (.pos 1, .int 1), (.name "source_flow_instance_uid", .str "m"), (.name "source_head_uid", .str "h")] f0 = .ok f ∧
+      lookup (.name "a") f.context = some (.int 0) ∧ lookup (.pos 0) f.context = some (.int 1) := by
+  refine ⟨_, _, rfl, rfl, ?_, ?_⟩ <;>
+    simp [Bind.set, lookup, bindNamed, bindPos, bindRet, startLoop, keys, argKey, reservedNames, paramOfKey, Param.dfltVal]
+
 end NemoVerif.C08
